@@ -241,7 +241,10 @@ fn get_new_path<L: Locale>(
     });
     location.hash.with_untracked(|hash| {
         if !hash.is_empty() {
-            new_path.push('#');
+            // the browser hands the fragment over with its `#`, a parsed request URL without
+            if !hash.starts_with('#') {
+                new_path.push('#');
+            }
             new_path.push_str(hash);
         }
     });
